@@ -1138,6 +1138,17 @@ func main() {
 		})
 		return found
 	}, map[string]string{"len(e.Data)": "n", "json.Valid(e.Data)": "dataValid"})
+	// ClientOptions.handleCallback: the same for the reply to a server callback
+	emitCond(root, c, "ClientOptions", "handleCallback", "dropCallbackErrorData", "(n : Int) (dataValid : Bool) : Bool", func(fd *ast.FuncDecl) ast.Expr {
+		var found ast.Expr
+		ast.Inspect(fd.Body, func(n ast.Node) bool {
+			if is, ok := n.(*ast.IfStmt); ok && found == nil && len(is.Body.List) == 1 && regexp.MustCompile(`^\w+ = &Error\{Code: \w+\.Code, Message: \w+\.Message\}$`).MatchString(src(is.Body.List[0])) {
+				found = is.Cond
+			}
+			return true
+		})
+		return found
+	}, map[string]string{"len(e.Data)": "n", "json.Valid(e.Data)": "dataValid"})
 	// jmessages.toJSON: a single non-batch message is sent bare
 	emitCond(root, c, "jmessages", "toJSON", "toJSONSingle", "(n : Int) (b0 : Bool) : Bool", func(fd *ast.FuncDecl) ast.Expr {
 		if is, ok := fd.Body.List[0].(*ast.IfStmt); ok && len(is.Body.List) == 1 && src(is.Body.List[0]) == "return j[0].toJSON()" {
